@@ -62,8 +62,14 @@ def units(tier):
     rng = random.Random(seed())
     specs, _ = small_specs(tier, rng, allow_cyclic=False, nrand_quick=60, nrand_thorough=4000,
                            chains_quick=20, chains_thorough=300, fixed_quick=100, fixed_thorough=4000)
-    return [{"specs": [s.to_json() for s in ch], "seed": seed() * 1000 + i, "maxtok": 3 if tier == "quick" else 4}
-            for i, ch in enumerate(chunks(specs, 40))]
+    us = [{"specs": [s.to_json() for s in ch], "seed": seed() * 1000 + i, "maxtok": 3 if tier == "quick" else 4}
+          for i, ch in enumerate(chunks(specs, 40))]
+    parts = 2 if tier == "quick" else 8
+    for fam, (_, sentences) in enumerate(MULTIHEAD):
+        for si in range(len(sentences)):
+            us += [{"kind": "multihead", "family": fam, "sentence": si, "part": k, "parts": parts, "tier": tier}
+                   for k in range(parts)]
+    return us
 
 
 def skip_strategy(head, error, default):
@@ -91,14 +97,27 @@ def make_inject_strategy(g):
     from parglare.parser import Token
 
     def inject(head, error, default):
+        # the LR configuration: an injected token that is shifted moves the frontier on, so meeting the
+        # configuration of an earlier injection again means that injection was dropped (the parser would
+        # call a pure-insertion strategy forever)
+        cp = getattr(inject, "parser", None)
+        if cp is not None:
+            cfg = (tuple(n.state.state_id for n in cp.parse_stack), head.position, head.frontier)
+            if cfg in inject.seen:
+                inject.loop = cfg
+                return default(head)
         for sym in head.state.actions:
             if sym.name not in ("STOP", "EMPTY") and getattr(inject, "budget", 0) < 3:
                 inject.budget = getattr(inject, "budget", 0) + 1
                 rec = sym.recognizer
                 value = getattr(rec, "value", None) or "?"
                 head.token_ahead = Token(sym, value, head.position, length=0)
+                if cp is not None:
+                    inject.seen.add(cfg)
                 return True
         return default(head)
+    inject.seen = set()
+    inject.loop = None
     return inject
 
 
@@ -187,10 +206,79 @@ def check_injected(res, case, t, text):
             return
 
 
+# GLR with several live heads at an error: the heads diverge after a reduce/reduce conflict (or an ambiguity)
+# and resume at different places
+MULTIHEAD = [
+    ("S: T 'd' | 'z' T 'e' | U;\nT: Q 'x';\nU: P 'x' 'c' 'c';\nP: 'a';\nQ: 'a';\n", ["axd", "zaxe", "axcc"]),
+    ("S: A 'b' 'c' | B 'b' 'd' 'd' | 'z' A 'b' 'e';\nA: 'a';\nB: 'a';\n", ["abc", "abdd", "zabe"]),
+    ("E: E '+' E | E '*' E | 'n';\n", ["n+n*n", "n*n"]),
+    ("S: X 'p' 'q' 'r' | Y 'p' 's';\nX: 'a' 'a';\nY: 'a' 'a';\n", ["aapqr", "aaps"]),
+]
+
+
+def multihead_inputs(sentence, alphabet, tier):
+    """All insertions of up to two symbols (alphabet + junk) and of three symbols two of which are junk
+    (all triples in the thorough tier)."""
+    syms = alphabet + "?"
+    out = {sentence}
+    one = set()
+    for i in range(len(sentence) + 1):
+        for c in syms:
+            one.add(sentence[:i] + c + sentence[i:])
+    two = set()
+    for t in one:
+        for i in range(len(t) + 1):
+            for c in syms:
+                two.add(t[:i] + c + t[i:])
+    three = set()
+    for t in two:
+        for i in range(len(t) + 1):
+            for c in syms:
+                x = t[:i] + c + t[i:]
+                if tier != "quick" or x.count("?") >= 2:
+                    three.add(x)
+    return sorted(out | one | two | three)
+
+
+def run_multihead(u, res):
+    st = res["stats"]
+    gtxt, sentences = MULTIHEAD[u["family"]]
+    g = Grammar.from_string(gtxt)
+    num = Numbering(g)
+    alphabet = "".join(sorted({c for s_ in sentences for c in s_}))
+    gp = GLRParser(g, error_recovery=True)
+    inputs = multihead_inputs(sentences[u["sentence"]], alphabet, u["tier"])
+    for text in inputs[u["part"]::u["parts"]]:
+        case = {"grammar": gtxt, "parser": "GLR", "strategy": "default", "input": text}
+        try:
+            with budget(2):
+                f = gp.parse(text)
+                errs = list(gp.errors)
+                n = f.solutions
+                trees = [f[i] for i in range(min(n, 4))]
+            st["glr_runs"] += 1
+            res["evaluations"] += 1
+            check_output(res, case, num, gp, text, trees, errs, False)
+            if len(errs) >= 2:
+                res["nontrivial"].append(h16(case))
+        except parglare.SyntaxError:
+            st["glr_runs"] += 1
+        except BudgetExceeded:
+            st["timeouts"] += 1
+            res["violations"].append({"kind": "glr-recovery-does-not-terminate", "case": case})
+        except Exception as e:
+            res["violations"].append({"kind": "foreign-exception", "case": case,
+                                      "observed": type(e).__name__ + ": " + str(e)[:100]})
+    res["traces"] = st["traces"]
+    return res
+
+
 def run_unit(u):
     res = {"evaluations": 0, "nontrivial": [], "samples": [], "violations": [], "disagreements": [],
            "stats": {"lr_runs": 0, "glr_runs": 0, "recoveries": 0, "custom_runs": 0, "raised_last_error": 0,
                      "timeouts": 0, "traces": 0, "build_errors": {}}}
+    if u.get("kind") == "multihead":
+        return run_multihead(u, res)
     rng = random.Random(u["seed"])
     st = res["stats"]
     for sj in u["specs"]:
@@ -293,6 +381,9 @@ def run_unit(u):
                 for text in inputs[::4]:
                     case = {"grammar": gtxt, "parser": "LR", "strategy": sname, "input": text}
                     inject.budget = 0
+                    inject.seen = set()
+                    inject.loop = None
+                    inject.parser = cp if sname == "inject" else None
                     if nto >= 2 or st["timeouts"] > 12:
                         break          # a diverging strategy is reported; do not burn the budget
                     try:
@@ -303,10 +394,18 @@ def run_unit(u):
                         res["evaluations"] += 1
                         if sname == "inject":
                             check_injected(res, case, t, text)
+                            if inject.loop is not None:
+                                res["violations"].append({
+                                    "kind": "injected-token-dropped-recovery-reenters-the-same-configuration",
+                                    "case": case, "observed": [list(inject.loop[0]), inject.loop[1], inject.loop[2]]})
                         else:
                             check_output(res, case, num, cp, text, [t], errs, sname == "wrap-default")
                     except (parglare.SyntaxError, DisambiguationError):
                         st["custom_runs"] += 1
+                        if sname == "inject" and inject.loop is not None:
+                            res["violations"].append({
+                                "kind": "injected-token-dropped-recovery-reenters-the-same-configuration",
+                                "case": case, "observed": [list(inject.loop[0]), inject.loop[1], inject.loop[2]]})
                     except BudgetExceeded:
                         st["timeouts"] += 1
                         nto += 1
